@@ -535,7 +535,7 @@ func GenValue(r *core.Rand, lookup func(string) *m.Item, t *m.Type, depth int, n
 		// custom scalar: any literal
 		switch r.Intn(6) {
 		case 0:
-			return &m.Value{Kind: m.VInt, Raw: r.Pick("1", "99999999999", "-5")}
+			return &m.Value{Kind: m.VInt, Raw: r.Pick("1", "99999999999", "-5", "7", "99999999999999999999")}
 		case 1:
 			return &m.Value{Kind: m.VString, Raw: "2020-01-01"}
 		case 2:
